@@ -2,7 +2,7 @@ CFG = dict(
     props_file='Props/C04.v',
     coq_targets=['Checks/C04.vo', 'Props/C04.vo'],
     bin='groupa', bin_args=['c04'], n_quick=60, n_thorough=800, thorough_args=[],
-    level_text='C04_consequences_perm / _dup: the immediate-consequence operator of every head is invariant under clause permutation and duplication (all programs, all databases); C04_base_facts_unchanged: an engine run never changes a stored relation; C04_perm_partial: corollary of C01 for both orderings. Partial: invariance of the specification (perfect model) itself under permutation is validated per case, not proved. Oracle: 3 random permutations, a duplicated clause, and a reused engine that first ran 1-3 unrelated programs, all must answer like the original; base facts compared before/after.',
+    level_text='C04_clause_order_and_repetition (FULL for clause order and repetition): two programs with the same clause SET have the same perfect model on every relation and the engine strategy returns the same answer, for every EDB and fuel, under C01's decidable hypotheses (proved by leastness of both models along the dependency order). C04_consequences_perm / _dup: the immediate-consequence operator of every head is invariant under clause permutation and duplication (all programs, all databases); C04_base_facts_unchanged: an engine run never changes a stored relation; C04_perm_partial: corollary of C01 for both orderings. Engine history (reuse of one engine for unrelated programs) is covered by C04_base_facts_unchanged and by the oracle. Oracle: 3 random permutations, a duplicated clause, and a reused engine that first ran 1-3 unrelated programs, all must answer like the original; base facts compared before/after.',
     level_note='Trusted: Coq kernel; hand-written Gallina model of clause semantics and of the engine strategy (Model/Datalog.v) — IRBuilder, the optimizer passes and Differential Dataflow are validated by the correspondence, not derived; harness printers.',
     corr_name='eval_engine / perfect_model on every variant vs IQLEngine',
     rule='shape-first program generator (1-4 derived heads + query, self recursion, 2-cycles, negation, comparisons, integer arithmetic, wildcards, constants, string column) x EDBs over a 3-5 value domain, plus a hand-written corpus x {3 permutations, duplicated clause + duplicated query clause, reused engine}; non-trivial = non-empty answer and >= 3 clauses',
